@@ -3,6 +3,8 @@
 
 import dill
 import multiprocessing
+import pickle
+import traceback
 
 
 def _run_dill_encoded(payload):
@@ -10,6 +12,33 @@ def _run_dill_encoded(payload):
     res = fun(args, **kwargs)
     res = dill.dumps(res)
     return res
+
+
+class _TaskError:
+    """
+    Sent back by a worker in place of a result when a task raised an exception, so that
+    ParallelMap.__call__() can re-raise it in the calling process instead of waiting
+    forever for a result that will never arrive.
+    """
+
+    def __init__(self, exception):
+        self.message = "".join(
+            traceback.format_exception(
+                type(exception), exception, exception.__traceback__
+            )
+        )
+        try:
+            # Only pass the exception object itself if it survives being sent through a
+            # multiprocessing.Queue
+            pickle.loads(pickle.dumps(exception))
+            self.exception = exception
+        except Exception:
+            self.exception = None
+
+    def reraise(self):
+        if self.exception is not None:
+            raise self.exception
+        raise RuntimeError("Task failed in ParallelMap worker:\n" + self.message)
 
 
 class ParallelMap:
@@ -69,9 +98,12 @@ class ParallelMap:
         f_Z = equilibrium.f_Z
         while True:
             i, function, args, kwargs = task_queue.get()
-            result = function(
-                *args, equilibrium=equilibrium, psi=psi, f_R=f_R, f_Z=f_Z, **kwargs
-            )
+            try:
+                result = function(
+                    *args, equilibrium=equilibrium, psi=psi, f_R=f_R, f_Z=f_Z, **kwargs
+                )
+            except Exception as e:
+                result = _TaskError(e)
             result_queue.put((i, result))
 
     def __call__(self, function, args_list, **kwargs):
@@ -103,5 +135,11 @@ class ParallelMap:
             raise ValueError("Some tasks not finished")
         if not self.result_queue.empty():
             raise ValueError("Some results not handled")
+
+        # All results have been collected, so the queues are clean. If any task failed,
+        # raise the exception of the first one, as serial execution would.
+        for this_result in result:
+            if isinstance(this_result, _TaskError):
+                this_result.reraise()
 
         return result
